@@ -12,7 +12,7 @@ from vlib.tlaparse import to_json
 HARNESS = ["zz_verif_c20_test.go", "zz_verif_c20b_test.go", "zz_verif_c20c_test.go"]
 WEAK = ["NoTrustedHashCompare", "NoBlockIDCompare", "NoLastCommitBinding", "TxNotBound", "NoTxProofCheck",
         "ResultsPreimage", "ResultsHeightUnbound", "NoResultsHashCompare", "NoQueryProofCheck", "AbsenceRawKey",
-        "NoParamsHashCompare", "ValsNotHashed", "BackwardsTargetNotRechecked",
+        "NoParamsHashCompare", "ValsNotHashed", "BackwardsTargetNotRechecked", "BackwardsCommitUnverified",
         "SearchProofFromCachedBlock"]
 # the invariant each weakened spec must violate (any of)
 WEAK_EXPECT = {"ResultsPreimage": ["RelayComplete"], "AbsenceRawKey": ["RelayComplete"],
@@ -65,13 +65,28 @@ def _collect(ctx, val, verdict, extra_obs):
         verdict.add(_sig(v), _payload(v))
 
 
+def _tree_consts(ctx):
+    """Which of two ACCEPTABLE behaviours the tree under test has (not a property judgement): does
+    SignedHeader.ValidateBasic validate Commit.BlockID (then a malformed PartSetHeader hash is refused like any bad
+    light block) or not (then VerifyCommitLight* panics on it, the call dies: TMLightRPC "lc:panic")."""
+    try:
+        with open(os.path.join(ctx.repo, "types", "light.go")) as f:
+            src = f.read()
+    except OSError as e:
+        raise Undecided("cannot read types/light.go: %s" % e)
+    i = src.find("func (sh SignedHeader) ValidateBasic")
+    body = src[i:src.find("\n}\n", i)] if i >= 0 else ""
+    return {"CommitBlockIDValidated": "Commit.BlockID.ValidateBasic()" in body}
+
+
 def run(ctx):
     quick = ctx.tier == "quick"
+    tree = _tree_consts(ctx)
     lie_heights = "{5}" if quick else "{1, 2, 3, 4, 5, 6}"
     nrandom = 240 if quick else 3000
 
     # ---- 1. design spec: every case is an initial state; exhaustive --------------------------
-    cfg = core.cfg_variant(ctx, "C20_cases.cfg", "C20_cases_run.cfg", {"LieHeights": lie_heights})
+    cfg = core.cfg_variant(ctx, "C20_cases.cfg", "C20_cases_run.cfg", dict(tree, LieHeights=lie_heights))
     dump = os.path.join(ctx.work, "cases")
     r1 = ctx.tlc("C20_cases", cfg, dump=[dump], must_pass=True, timeout=2400, workers=8, heap="6g", label="cases")
     descs = _descs(r1)
@@ -86,11 +101,11 @@ def run(ctx):
     from concurrent.futures import ThreadPoolExecutor
 
     def weak(w):
-        c = core.cfg_variant(ctx, "C20_weak_%s.cfg" % w, "C20_weak_%s_run.cfg" % w, {"LieHeights": small})
+        c = core.cfg_variant(ctx, "C20_weak_%s.cfg" % w, "C20_weak_%s_run.cfg" % w, dict(tree, LieHeights=small))
         return w, ctx.tlc("C20_cases", c, timeout=900, workers=2, heap="2g", label="weak_" + w)
 
     def other(name, cfgname):
-        c = core.cfg_variant(ctx, cfgname, name + "_run.cfg", {"LieHeights": small})
+        c = core.cfg_variant(ctx, cfgname, name + "_run.cfg", dict(tree, LieHeights=small))
         return name, ctx.tlc("C20_cases", c, timeout=900, workers=2, heap="2g", label=name)
 
     with ThreadPoolExecutor(max_workers=4) as ex:
@@ -103,7 +118,7 @@ def run(ctx):
             ctx.save_log("weak_" + w, rw.out)
             raise Undecided("vacuity: weakened spec Weak_%s is not refuted (%s)" % (w, names or rw.errors[:1]))
         nonvac["Weak_%s refuted by TLC" % w] = names[0]
-        if w in ("SearchProofFromCachedBlock", "BackwardsTargetNotRechecked"):
+        if w in ("SearchProofFromCachedBlock", "BackwardsTargetNotRechecked", "BackwardsCommitUnverified"):
             # the counterexample (a descending page spanning several heights / a forged block below the trust
             # height followed by a broken interim chain) is replayed on the real code
             try:
@@ -129,7 +144,8 @@ def run(ctx):
         raise Undecided("harness executed %d of %d cases" % (ncase_rows, len(cases)))
 
     # ---- 3. trace validation --------------------------------------------------------------------
-    val = core.validate_traces(ctx, "TMLightRPCTrace", rows, max_events=700, timeout=1800, label="c20")
+    tcfg = core.cfg_variant(ctx, "TMLightRPCTrace.cfg", "TMLightRPCTrace_run.cfg", tree)
+    val = core.validate_traces(ctx, "TMLightRPCTrace", rows, cfg=tcfg, max_events=700, timeout=1800, label="c20")
 
     # ---- 4. verdict -------------------------------------------------------------------------------
     verdict = core.Verdict(ctx)
@@ -177,6 +193,7 @@ def run(ctx):
         "conformance_drift": [{"what": d["what"], "step": core.abridge(d["row"])} for d in drift[:5]],
         "conformance_drift_count": len(drift),
         "nonvacuity": nonvac,
+        "tree_variant": tree,
         "known_findings_reproduced": dict(verdict.known),
     }
     rc = verdict.finish()
@@ -184,8 +201,10 @@ def run(ctx):
         print("OBSERVATION (outside the statement's list, not a verdict): property=C20 %s x%d" % (k, n), flush=True)
     npanic = coverage["client_panics"]
     if npanic:
-        print("OBSERVATION (C09/C17 territory, not a verdict): a light block with a malformed commit block id served by the "
-              "primary panics the light client (types.CanonicalizeBlockID) x%d" % npanic, flush=True)
+        print("OBSERVATION (not a C20 verdict; see proposed-fixes/C20-commit-blockid-validate.diff): a light block whose "
+              "Commit.BlockID.PartSetHeader.Hash has a wrong length passes LightBlock.ValidateBasic (also in light/provider/http) "
+              "and panics the light client in VerifyCommitLight[Trusting] -> Commit.VoteSignBytes -> types.CanonicalizeBlockID "
+              "x%d" % npanic, flush=True)
     ctx.write_evidence(coverage, [
         "hashes and signatures symbolic: SHA-256 collision-free, ed25519 unforgeable and deterministic",
         "the light client itself is correct (C09): a header in its trusted store is the chain's header; checked on every trace "
@@ -218,7 +237,8 @@ def replay(ctx, path):
     elif step.get("ev") == "Search":
         cases = [{"chain": desc["id"], "kind": "TxSearch", "a": step["a"], "f": {"edits": [], "coh": False}}]
     rows = _run_harness(ctx, [desc], cases, 0)
-    val = core.validate_traces(ctx, "TMLightRPCTrace", rows, max_events=700, label="replay")
+    tcfg = core.cfg_variant(ctx, "TMLightRPCTrace.cfg", "TMLightRPCTrace_run.cfg", _tree_consts(ctx))
+    val = core.validate_traces(ctx, "TMLightRPCTrace", rows, cfg=tcfg, max_events=700, label="replay")
     verdict = core.Verdict(ctx)
     extra = {}
     _collect(ctx, val, verdict, extra)
